@@ -37,6 +37,7 @@ PAYLOADS = {
     'awaitdone': [['D', 1], ['AWAIT', 'fin'], ['AWAITDONE', 'fin'], ['AWAIT', 'fin'], ['RETURN', 9]],
     'selfcancel': [['D', 1], ['CANCEL', 'v', 'self'], ['INSTANT'], ['D', 1]],
     'instant': [['INSTANT'], ['INSTANT']],
+    'watch': [],
     'graceful': [['ONCANCEL', [['D', 2]], [['D', 3]]], ['INSTANT']],
     # suspended inside an until block whose child ends / fails in the time step of the cancel
     'until': [['UNTIL', 'vu', ['DELAY', 2], [['DO', 'g', [['D', 1]]], ['ETERNITY']]], ['INSTANT']],
@@ -53,6 +54,11 @@ def awaiter(delay):
 def program(payload, start, awaiters, sibling, vfirst):
     kids = []
     v = ['DO', 'v', PAYLOADS[payload], start]
+    if payload == 'watch':
+        # the payload of the victim is ANOTHER TASK (its sibling): cancelling the watcher never touches the watched task
+        sibling = False
+        kids.append(['DO', 'sib', [['D', 2], ['PROBE', 'now']]])
+        v = ['DO', 'v', [], dict(start or {}, bare=['TASK', 'sib'])]
     if payload == 'lock':
         kids.append(['DO', 'holder', [['LOCK', 'l', [['D', 1]]]]])
     if payload == 'awaitdone':
@@ -194,7 +200,12 @@ def lifecycle(ctx, snaps, program, faults):
             if own_end and resumed_by_cancel and ended > idx and program['_payload'] not in ('graceful',):
                 msgs.append('the cancellation was delivered to the task at %r but it ended with %r instead' % (
                     log[ended][3], log[ended][4]))
-            if own_end and log[ended][3] == t_c and ended > idx or (own_end and ended < idx):
+            # (a watcher whose payload is another task writes no records of its own: when the watched task finishes in the time
+            # step of the cancel, the watcher's wake-up and the cancellation race - both outcomes are admissible)
+            watch_tie = program['_payload'] == 'watch' and any(r[0] == 'finish' and r[1] == 'sib' and r[3] == t_c for r in log)
+            if watch_tie:
+                pass
+            elif own_end and log[ended][3] == t_c and ended > idx or (own_end and ended < idx):
                 if final == 'CANCELLED':
                     msgs.append('the task completed on its own at %r but is reported cancelled' % t_c)
             else:
